@@ -10,7 +10,7 @@ import (
 
 func init() {
 	register("C14", propMeta{
-		Explanation: "Decides, on every path: each of the three ClientState.Status implementations returns Expired exactly on the edge of a comparison between (timestamp of the consensus state stored at the client's latest height, read from the given store) + the client's trusting period and ctx.BlockTime(), and Active on the opposite edge; no consensus code reads a calendar component of a time.Time (Nanosecond, Second, Minute, ... ) where an absolute time is needed, and inside one client package every comparison of timestamp+trustingPeriod with the block time uses the same BlockTime accessor (unit) and the same comparison operator; the Tendermint client's expiry predicate has the same shape (operator at the boundary) as cometbft's light.HeaderExpired, which light.Verify applies to the same header; ClientKeeper.UpdateClient calls CheckHeaderAndUpdateState only past Status(...) == Active of the same client and store; every ClientState.Verify* call of the packet keeper (RecvPacket, AcknowledgePacket, RecvCleanPacket) is dominated by Status(ctx, ClientStore(ctx, same chain), cdc) == Active of the same client. NOT decided: which strictness (< or <=) is the right one at the exact boundary for the BSC/ETH clients, unit conventions of stored timestamps beyond accessor agreement.",
+		Explanation: "Decides, on every path: each of the three ClientState.Status implementations returns Expired exactly on the edge of a comparison between (timestamp of the consensus state stored at the client's latest height, read from the given store) + the client's trusting period and ctx.BlockTime(), and Active on the opposite edge; no consensus code reads a calendar component of a time.Time (Nanosecond, Second, Minute, ... ) where an absolute time is needed, and inside one client package every comparison of timestamp+trustingPeriod with the block time uses the same BlockTime accessor (unit) and the same comparison operator; the Tendermint client's expiry predicate has the same shape (operator at the boundary) as cometbft's light.HeaderExpired, which light.Verify applies to the same header; ClientKeeper.UpdateClient calls CheckHeaderAndUpdateState only past Status(...) == Active of the same client and store; every ClientState.Verify* call of the packet keeper (RecvPacket, AcknowledgePacket, RecvCleanPacket) is dominated by Status(ctx, ClientStore(ctx, same chain), cdc) == Active of the same client. For the integer clients the expiry comparison must have the additive form (timestamp + trusting period) < block time; a difference of unsigned values (which wraps when the newest header is ahead of the block time) is reported. NOT decided: which strictness (< or <=) is the right one at the exact boundary for the BSC/ETH clients, unit conventions of stored timestamps beyond accessor agreement.",
 		Assumptions: []string{"consensus-state timestamps of BSC/ETH clients are Unix seconds (header.Time)"},
 		Trusted:     commonTrusted,
 	}, ruleC14)
